@@ -267,6 +267,20 @@ def register_b09(pid, lean, oracle, classify, rule, relevant=b09_any, tie=None, 
     B09_ORACLES[pid] = oracle
 
 
+import suite_layout as _SL  # noqa: E402
+
+
+def _on_layout(orc):
+    """judge the real output of every layout variant (dense spellings such as PALETTERGB included) with a b09 oracle"""
+    def f(case, impl):
+        if OB.src_comment_closes_early(case.get("text", "")):
+            return None           # `*)` inside a comment ends it early (C07 finding): the rest of the line is not readable
+        c = dict(case)
+        c.setdefault("fmt", "b09")
+        return orc(c, impl)
+    return f
+
+
 register_b09(
     "C14", ["CocoVerif.Props.C14"], OB.c14, OB.c14_classify,
     "every RUN call in the user's procedure of every converted program of the transpiler suite (generated programs cover all "
@@ -275,11 +289,13 @@ register_b09(
     "`param` lines of ecb.b09 read independently; distinct = distinct request",
     tie=OB.c14_tie,
     assumptions=["argument kind = syntactic category of the emitted argument (string literal / name ending in $ / record variable / else numeric)"],
+    extra_suites=[{"name": "layout", "relevant": lambda c: True, "oracle": _on_layout(OB.c14),
+                   "classify": lambda c, i, w: OB.c14_classify(c, i, w)}],
 )
 
 
 register_b09(
-    "C15", ["CocoVerif.Props.C15"], OB.c15, OB.c15_classify,
+    "C15", ["CocoVerif.Props.C15", "CocoVerif.Props.C15Kinds"], OB.c15, OB.c15_classify,
     "every case of the transpiler suite: generated programs over all statement kinds, the bundled examples, the unit-test "
     "inputs, and the malformed stream (token deletion / duplication / swap, extreme literals such as 1E, ., +-1, &H, ((((), "
     "under random option sets incl. procedure names my_prog, 9x, a-b, ecb_cls and the empty name; "
@@ -380,12 +396,37 @@ PROPS["C02"] = {
 
 import suite_sem  # noqa: E402
 
+
+def _lib_value_search(pid, tier, findings):
+    """The text of a value procedure of ecb.b09 changed (Tie.EcbText): run it as it is now and the pinned
+    original in the library interpreter (harness/b09lib.py, parameters by reference) on the same argument
+    lists and report the first on which the results differ."""
+    import os
+    import b09lib
+    from common import REPO
+    here = os.path.dirname(os.path.abspath(__file__))
+    cur = open(os.path.join(REPO, "coco", "resources", "ecb.b09"), newline="").read()
+    pin = open(os.path.join(here, "pinned_value_procs.b09"), newline="").read()
+    try:
+        diffs, skipped, n = b09lib.differential(cur, pin)
+    except Exception as e:  # noqa: BLE001
+        return [], 0
+    found = []
+    for name, args, alias, now, ref in diffs:
+        call = f"RUN {name}(" + ", ".join(("<same variable as argument %d>" % (alias[0] + 1)) if alias and k == alias[1] else repr(a)
+                                          for k, a in enumerate(args)) + ")"
+        found.append({"request": "libvalue " + call, "kind": "library-procedure", "impl": now, "model": ref, "class": None,
+                      "why": f"{call}: the procedure of ecb.b09 as it is now gives {now}, the text the value oracles were written "
+                             f"against gives {ref} (result parameters, by reference)", "readable": call})
+    return found, n
+
+
 PROPS["C03"] = {
-    "lean": ["CocoVerif.Props.C03", "CocoVerif.Props.Front"],
+    "lean": ["CocoVerif.Props.C03", "CocoVerif.Props.Front", "CocoVerif.Tie.EcbText"],
     "lean_extra": B09_LEAN_EXTRA + FRONT_LEAN,
     "suites": [{"name": "sem", "relevant": lambda c: True, "oracle": suite_sem.oracle, "classify": suite_sem.classify}]
               + FRONT_SUITES,
-    "search": None,
+    "search": _lib_value_search,
     "rule": "28 probes + 200 (thorough: 2500) generated programs mixing DIM with 1-3 dimensions and decimal or hex bounds (writes and "
             "reads at the corner indices 0 and N), implicit arrays (index 0..10, read before write, used only inside a function "
             "argument), DATA lines with numeric, exponent, hex, quoted, unquoted and empty items placed before / after / around "
@@ -430,12 +471,13 @@ PROPS["C08"] = {
 
 import suite_expr  # noqa: E402
 
+
 PROPS["C01"] = {
-    "lean": ["CocoVerif.Props.C01", "CocoVerif.Props.C01Front"],
+    "lean": ["CocoVerif.Props.C01", "CocoVerif.Props.C01Front", "CocoVerif.Tie.EcbText"],
     "lean_extra": B09_LEAN_EXTRA + ["CocoVerif.Spec.Ladder"] + FRONT_LEAN,
     "suites": [{"name": "expr", "relevant": lambda c: True, "oracle": suite_expr.oracle, "classify": suite_expr.classify}]
               + FRONT_SUITES,
-    "search": None,
+    "search": _lib_value_search,
     "rule": "every expression shape with up to 2 (thorough: 3) binary operators from + - * / ^ over the leaves A, B, 2, 3 with unary "
             "minus and parentheses at every position (exhaustive), 60 probes for AND/OR/NOT, comparisons, literal spellings "
             "(decimal, exponent, hex below and above $8000, blanks inside), signs, and random larger numeric / string / condition "
@@ -496,7 +538,7 @@ PROPS["C20"] = {
     "lean": ["CocoVerif.Tie.EcbHelpers", "CocoVerif.Props.C20"],
     "lean_extra": ["CocoVerif.Model.B09Lib", "CocoVerif.Spec.Strings", "CocoVerif.Pinned.EcbHelpers"],
     "suites": [{"name": "lib", "relevant": lambda c: True, "oracle": suite_lib.oracle}],
-    "search": None,
+    "search": _lib_value_search,
     "rule": "exhaustive: every subject over {A,B} up to length 4 (6 thorough) x every pattern up to length 3 (4) x every start "
             "index 1..len+2, plus long probes; STRING$ counts (all 0..255 in thorough) x 5 arguments incl. empty and negative counts; "
             "10 DATA spellings for the read filter; each case runs the procedure as translated from ecb.b09 on this run in the "
@@ -607,6 +649,16 @@ def replay_witness(f):
             env = dict(os.environ, PYTHONHASHSEED=str(seed_))
             outs.add(subprocess.run([PY, "-c", code], capture_output=True, text=True, env=env).stdout)
         return None if len(outs) == 1 else f"{len(outs)} different outputs under PYTHONHASHSEED 0..5"
+    if isinstance(w, dict) and w.get("type") == "libvalue":
+        import os
+        import b09lib
+        from common import REPO
+        cur = open(os.path.join(REPO, "coco", "resources", "ecb.b09"), newline="").read()
+        try:
+            ans = b09lib.run_once(b09lib.Lib(cur), w["proc"], list(w["args"]), list(w["outs"]), None)
+        except b09lib.Unsupported as e:
+            ans = f"unsupported {e}"
+        return None if ans == w["expect"] else f"RUN {w['proc']}{tuple(w['args'])} -> {ans}, expected {w['expect']}"
     if isinstance(w, dict) and w.get("type") == "lib":
         from common import run_driver
         ans = run_driver([w["request"]])[0]
